@@ -2,7 +2,7 @@
 SPECIFICATION Spec
 CONSTANTS
   W = 8
-  MaxSize = 40
+  Sizes <- SzQuick
   Guarded = FALSE
   JSizes <- JSQuick
   JFlags <- JFQuick
